@@ -4,7 +4,7 @@
    Print Assumptions.
 
    The file system is universally quantified: any type of paths with decidable
-   equality and any functions canon (fs::canonicalize), is_dir, read_dir, join
+   equality and any functions canon (fs::canonicalize), is_dir, is_file, read_dir, join
    (PathBuf::push), parent (PathBuf::pop), file_name, ext_circom, starts_dot,
    has_sep, content.  The only premises about them are
      * [canon] is idempotent: the canonical form of a path canonicalises to itself;
@@ -21,13 +21,13 @@ Require Import Model.Includes Spec.IncludesSpec Proofs.IncludesProofs.
    same canonical form are the same position *)
 Theorem C19_each_canonical_file_once :
   forall (path : Type) (EqDecision0 : EqDecision path)
-         (canon : path -> option path) (is_dir : path -> bool)
+         (canon : path -> option path) (is_dir is_file : path -> bool)
          (read_dir : path -> option (list path)) (join : path -> path -> path)
          (parent : path -> path) (file_name : path -> option path)
          (ext_circom starts_dot has_sep : path -> bool) (content : path -> file_content path),
     (forall p c, canon p = Some c -> canon c = Some c) ->
     forall (dfuel fuel : nat) (paths libs : list path) (s : parse_state),
-      parse_files canon is_dir read_dir join parent file_name ext_circom starts_dot has_sep content
+      parse_files canon is_dir is_file read_dir join parent file_name ext_circom starts_dot has_sep content
                   false dfuel fuel paths libs = Ok s ->
       Forall (canonical canon) (ps_read s) /\
       (forall (i j : nat) (p q : path),
@@ -40,7 +40,7 @@ Print Assumptions C19_each_canonical_file_once.
    of the named directories) parse_files never runs out of fuel *)
 Theorem C19_include_terminates :
   forall (path : Type) (EqDecision0 : EqDecision path)
-         (canon : path -> option path) (is_dir : path -> bool)
+         (canon : path -> option path) (is_dir is_file : path -> bool)
          (read_dir : path -> option (list path)) (join : path -> path -> path)
          (parent : path -> path) (file_name : path -> option path)
          (ext_circom starts_dot has_sep : path -> bool) (content : path -> file_content path),
@@ -49,7 +49,7 @@ Theorem C19_include_terminates :
       (forall p c, canon p = Some c -> c ∈ universe) ->
       Forall (depth_le is_dir read_dir join k) paths ->
       length universe < fuel ->
-      parse_files canon is_dir read_dir join parent file_name ext_circom starts_dot has_sep content
+      parse_files canon is_dir is_file read_dir join parent file_name ext_circom starts_dot has_sep content
                   false (S k) fuel paths libs <> OutOfFuel.
 Proof. exact @include_terminates. Qed.
 Print Assumptions C19_include_terminates.
@@ -57,20 +57,21 @@ Print Assumptions C19_include_terminates.
 (* the measure: the number of files read never exceeds the number of canonical paths *)
 Theorem C19_reads_bounded :
   forall (path : Type) (EqDecision0 : EqDecision path)
-         (canon : path -> option path) (is_dir : path -> bool)
+         (canon : path -> option path) (is_dir is_file : path -> bool)
          (read_dir : path -> option (list path)) (join : path -> path -> path)
          (parent : path -> path) (file_name : path -> option path)
          (ext_circom starts_dot has_sep : path -> bool) (content : path -> file_content path),
     (forall p c, canon p = Some c -> canon c = Some c) ->
     forall (universe : list path) (dfuel fuel : nat) (paths libs : list path) (s : parse_state),
       (forall p c, canon p = Some c -> c ∈ universe) ->
-      parse_files canon is_dir read_dir join parent file_name ext_circom starts_dot has_sep content
+      parse_files canon is_dir is_file read_dir join parent file_name ext_circom starts_dot has_sep content
                   false dfuel fuel paths libs = Ok s ->
       length (ps_read s) <= length universe.
 Proof. exact @reads_bounded. Qed.
 Print Assumptions C19_reads_bounded.
 
-(* resolution order, one include statement: relative to the directory of the
+(* resolution order, one include statement (only a file can be included, a
+   directory of the name does not count): relative to the directory of the
    including file first, then the first -L library in the order given that
    offers the name (a directory library for names not starting with '.', a
    file library for single-component names equal to its file name); a resolved
@@ -78,14 +79,14 @@ Print Assumptions C19_reads_bounded.
    yields the include error carrying the statement's file id and range *)
 Theorem C19_resolution_order :
   forall (path : Type) (EqDecision0 : EqDecision path)
-         (canon : path -> option path) (join : path -> path -> path)
+         (canon : path -> option path) (is_file : path -> bool) (join : path -> path -> path)
          (parent : path -> path) (file_name : path -> option path)
          (starts_dot has_sep : path -> bool)
          (st : file_stack) (inc : include) (cur : path) (st' : file_stack) (rep : option report),
     current_location st = Some (parent cur) ->
-    add_include canon join file_name starts_dot has_sep false st inc = Ok (st', rep) ->
+    add_include canon is_file join file_name starts_dot has_sep false st inc = Ok (st', rep) ->
     exists r : option path,
-      resolves canon join parent file_name starts_dot has_sep cur (libraries st) (inc_path inc) r /\
+      resolves canon is_file join parent file_name starts_dot has_sep cur (libraries st) (inc_path inc) r /\
       match r with
       | Some c => rep = None /\ (st' = push c st \/ (c ∈ black_paths st /\ st' = st))
       | None => rep = Some (IncludeError (inc_path inc) (inc_file inc) (inc_start inc) (inc_end inc)) /\ st' = st
@@ -97,17 +98,17 @@ Print Assumptions C19_resolution_order.
    from the named ones through includes resolved by that rule *)
 Theorem C19_reads_exactly_reachable :
   forall (path : Type) (EqDecision0 : EqDecision path)
-         (canon : path -> option path) (is_dir : path -> bool)
+         (canon : path -> option path) (is_dir is_file : path -> bool)
          (read_dir : path -> option (list path)) (join : path -> path -> path)
          (parent : path -> path) (file_name : path -> option path)
          (ext_circom starts_dot has_sep : path -> bool) (content : path -> file_content path),
     (forall p c, canon p = Some c -> canon c = Some c) ->
     forall (dfuel fuel : nat) (paths libs : list path) (s : parse_state),
-      parse_files canon is_dir read_dir join parent file_name ext_circom starts_dot has_sep content
+      parse_files canon is_dir is_file read_dir join parent file_name ext_circom starts_dot has_sep content
                   false dfuel fuel paths libs = Ok s ->
       forall c : path,
         c ∈ ps_read s <->
-        reachable canon join parent file_name starts_dot has_sep content
+        reachable canon is_file join parent file_name starts_dot has_sep content
                   (named canon is_dir read_dir join ext_circom paths)
                   (add_libraries canon is_dir ext_circom libs []).1 c.
 Proof. exact @reads_exactly_reachable. Qed.
@@ -118,24 +119,24 @@ Print Assumptions C19_reads_exactly_reachable.
    conversely every unresolvable include statement of a parsed file has its error *)
 Theorem C19_unresolved_include_error_located :
   forall (path : Type) (EqDecision0 : EqDecision path)
-         (canon : path -> option path) (is_dir : path -> bool)
+         (canon : path -> option path) (is_dir is_file : path -> bool)
          (read_dir : path -> option (list path)) (join : path -> path -> path)
          (parent : path -> path) (file_name : path -> option path)
          (ext_circom starts_dot has_sep : path -> bool) (content : path -> file_content path),
     (forall p c, canon p = Some c -> canon c = Some c) ->
     forall (dfuel fuel : nat) (paths libs : list path) (s : parse_state),
-      parse_files canon is_dir read_dir join parent file_name ext_circom starts_dot has_sep content
+      parse_files canon is_dir is_file read_dir join parent file_name ext_circom starts_dot has_sep content
                   false dfuel fuel paths libs = Ok s ->
       (forall (p : path) (fid : option nat) (a b : nat),
           IncludeError p fid a b ∈ ps_reports s ->
           exists (i : nat) (f : path) (u : bool) (incs : list (path * nat * nat)),
             fid = Some i /\ ps_files s !! i = Some (f, u) /\ f ∈ ps_read s /\
             content f = Parsed incs /\ (p, a, b) ∈ incs /\
-            resolves canon join parent file_name starts_dot has_sep f
+            resolves canon is_file join parent file_name starts_dot has_sep f
                      (add_libraries canon is_dir ext_circom libs []).1 p None) /\
       (forall (f : path) (incs : list (path * nat * nat)) (p : path) (a b : nat),
           f ∈ ps_read s -> content f = Parsed incs -> (p, a, b) ∈ incs ->
-          resolves canon join parent file_name starts_dot has_sep f
+          resolves canon is_file join parent file_name starts_dot has_sep f
                    (add_libraries canon is_dir ext_circom libs []).1 p None ->
           exists (i : nat) (u : bool),
             ps_files s !! i = Some (f, u) /\ IncludeError p (Some i) a b ∈ ps_reports s).
@@ -143,7 +144,8 @@ Proof. exact @unresolved_include_error_located. Qed.
 Print Assumptions C19_unresolved_include_error_located.
 
 (* the user-input set built by FileStack::new is the set of canonical files the
-   command line names (a named directory stands for the .circom files below it) *)
+   command line names (a named path that is not a directory is an input file
+   whatever its suffix, a named directory stands for the .circom files below it) *)
 Theorem C19_user_set_is_argv_files :
   forall (path : Type) (EqDecision0 : EqDecision path)
          (canon : path -> option path) (is_dir : path -> bool)
@@ -163,13 +165,13 @@ Print Assumptions C19_user_set_is_argv_files.
    that uses the flag is C03's) *)
 Theorem C19_included_only_files_are_not_user_inputs :
   forall (path : Type) (EqDecision0 : EqDecision path)
-         (canon : path -> option path) (is_dir : path -> bool)
+         (canon : path -> option path) (is_dir is_file : path -> bool)
          (read_dir : path -> option (list path)) (join : path -> path -> path)
          (parent : path -> path) (file_name : path -> option path)
          (ext_circom starts_dot has_sep : path -> bool) (content : path -> file_content path),
     (forall p c, canon p = Some c -> canon c = Some c) ->
     forall (dfuel fuel : nat) (paths libs : list path) (s : parse_state),
-      parse_files canon is_dir read_dir join parent file_name ext_circom starts_dot has_sep content
+      parse_files canon is_dir is_file read_dir join parent file_name ext_circom starts_dot has_sep content
                   false dfuel fuel paths libs = Ok s ->
       (forall c : path,
           is_user_input (ps_stack s) c = true <-> named canon is_dir read_dir join ext_circom paths c) /\
@@ -217,53 +219,38 @@ Theorem C19_run_project_fuel_ok :
 Proof. exact run_project_fuel_ok. Qed.
 Print Assumptions C19_run_project_fuel_ok.
 
-(* known finding C19-include-unreadable.  Full-strength statement (kept
-   visible, false): every include statement of a parsed file leads to a file
-   that is read and readable, or is reported at the statement. *)
-Definition C19_every_include_served_full_statement : Prop :=
+(* every include statement of a parsed file resolves to a file that is read,
+   or is reported at the statement — without exception since the repair
+   recorded as C19-include-unreadable (an include naming a directory used to
+   end in an OS error without location) *)
+Theorem C19_every_include_served :
   forall (path : Type) (EqDecision0 : EqDecision path)
-         (canon : path -> option path) (is_dir : path -> bool)
+         (canon : path -> option path) (is_dir is_file : path -> bool)
          (read_dir : path -> option (list path)) (join : path -> path -> path)
          (parent : path -> path) (file_name : path -> option path)
          (ext_circom starts_dot has_sep : path -> bool) (content : path -> file_content path),
     (forall p c, canon p = Some c -> canon c = Some c) ->
     forall (dfuel fuel : nat) (paths libs : list path) (s : parse_state)
            (f : path) (incs : list (path * nat * nat)) (p : path) (a b : nat),
-      parse_files canon is_dir read_dir join parent file_name ext_circom starts_dot has_sep content
+      parse_files canon is_dir is_file read_dir join parent file_name ext_circom starts_dot has_sep content
                   false dfuel fuel paths libs = Ok s ->
       f ∈ ps_read s -> content f = Parsed incs -> (p, a, b) ∈ incs ->
-      include_served canon join parent file_name starts_dot has_sep content
-                     (add_libraries canon is_dir ext_circom libs []).1 s f p a b.
-
-(* it holds outside the class KF_include_unreadable: the include resolves to
-   something that exists but cannot be read as a file (a directory) *)
-Theorem C19_every_include_served_outside_KF :
-  forall (path : Type) (EqDecision0 : EqDecision path)
-         (canon : path -> option path) (is_dir : path -> bool)
-         (read_dir : path -> option (list path)) (join : path -> path -> path)
-         (parent : path -> path) (file_name : path -> option path)
-         (ext_circom starts_dot has_sep : path -> bool) (content : path -> file_content path),
-    (forall p c, canon p = Some c -> canon c = Some c) ->
-    forall (dfuel fuel : nat) (paths libs : list path) (s : parse_state)
-           (f : path) (incs : list (path * nat * nat)) (p : path) (a b : nat),
-      parse_files canon is_dir read_dir join parent file_name ext_circom starts_dot has_sep content
-                  false dfuel fuel paths libs = Ok s ->
-      f ∈ ps_read s -> content f = Parsed incs -> (p, a, b) ∈ incs ->
-      ~ KF_include_unreadable canon join parent file_name starts_dot has_sep content
-                              (add_libraries canon is_dir ext_circom libs []).1 f p ->
-      include_served canon join parent file_name starts_dot has_sep content
-                     (add_libraries canon is_dir ext_circom libs []).1 s f p a b.
+      (exists c, resolves canon is_file join parent file_name starts_dot has_sep f
+                          (add_libraries canon is_dir ext_circom libs []).1 p (Some c) /\ c ∈ ps_read s) \/
+      (resolves canon is_file join parent file_name starts_dot has_sep f
+                (add_libraries canon is_dir ext_circom libs []).1 p None /\
+       exists (i : nat) (u : bool),
+         ps_files s !! i = Some (f, u) /\ IncludeError p (Some i) a b ∈ ps_reports s).
 Proof. exact @every_include_served. Qed.
-Print Assumptions C19_every_include_served_outside_KF.
+Print Assumptions C19_every_include_served.
 
-(* and it fails inside the class: `include "sub";` with sub a directory yields
-   only an OS error without location *)
-Theorem C19_include_unreadable_refuted :
+(* the former witness: `include "sub";` with sub a directory next to the
+   including file now yields the include error at bytes 21..35 of file 0, and
+   the directory is not read *)
+Theorem C19_dir_include_is_located :
   canon_idempotent_b kf_dir_fs = true /\
   exists s, run_project false kf_dir_fs [str "q/main.circom"] [] = Ok s /\
-            str "/r/q/main.circom" ∈ ps_read s /\
-            ps_reports s = [FileOsError (str "/r/q/sub")] /\
-            KF_d kf_dir_fs [] (str "/r/q/main.circom") (str "sub") /\
-            ~ served_d kf_dir_fs [] s (str "/r/q/main.circom") (str "sub") 21 35.
-Proof. exact kf_dir_include_not_served. Qed.
-Print Assumptions C19_include_unreadable_refuted.
+            ps_read s = [str "/r/q/main.circom"] /\
+            ps_reports s = [IncludeError (str "sub") (Some 0) 21 35].
+Proof. exact dir_include_is_located. Qed.
+Print Assumptions C19_dir_include_is_located.
